@@ -177,6 +177,12 @@ def main():
         a = run_cases(lr.drv, [f["witness"]])[0]
         outs = a.get("outs") or [{}]
         last = outs[-1]
+        if "observed_bss" in f:
+            rs = last.get("rules") or []
+            got = [strip_builtin(b) for b in (rs[0].get("bss") if rs else [])]
+            if canon(got) == canon(f["observed_bss"]): ck.known_finding("%s: %s" % (f["id"], f["what"]))
+            else: ck.note("known finding %s no longer reproduces (got %s)" % (f["id"], canon(got)[:100]))
+            continue
         if "rules" in last and last.get("err") is None:
             got = sorted(r["id"] for r in last["rules"])
         else:
